@@ -36,7 +36,7 @@
 (*              that take the request apart (URL parts, query string       *)
 (*              functions, regular expressions, cookies / sub-fields)      *)
 (***************************************************************************)
-EXTENDS Integers, Sequences, FiniteSets, TLC, Json, BuiltinsTable
+EXTENDS Integers, Sequences, FiniteSets, TLC, Json, BuiltinsTable, VariablesTable
 
 CONSTANTS Mode, MaxReq
 
@@ -212,6 +212,12 @@ DirectorCells == { [k |-> "director", dtype |-> t, weight |-> w, quorum |-> q, r
                      : t \in {"random", "fallback", "hash", "client", "chash"}, w \in {"1", "-1", "500", "501", "1000", "1001", "MAX"},
                        q \in {"-1", "0", "50", "100", "101"}, r \in {"-1", "0", "1", "MAX"} }
 
+(* every predefined variable that can be read in vcl_error / vcl_deliver / vcl_log (VariablesTable, generated from       *)
+(* __generator__/predefined.yml), read there after each unusual path of the request: the getters of these scopes look   *)
+(* at optional parts of the context (backend request / response, object, client response) that such paths leave unset  *)
+VarPaths == {"normal", "error-recv", "error-miss", "error-fetch", "restart-after-error", "pass", "deliver-stale", "synthetic"}
+VarCells(i) == { [k |-> "vars", name |-> Variables[i].name, scope |-> sc, path |-> p] : sc \in Variables[i].scopes, p \in VarPaths }
+
 -----------------------------------------------------------------------------
 VARIABLES phase, item
 vars == <<phase, item>>
@@ -224,6 +230,7 @@ Keys == CASE Mode = "assign"  -> {<<vt, op>> : vt \in LeftTypes, op \in Ops}
           [] Mode = "include" -> {<<0, 0>>}
           [] Mode = "request" -> {<<g, 0>> : g \in {"echo", "query", "regex", "cookie"}}
           [] Mode = "jump"    -> {<<c, 0>> : c \in {"plain", "fcall", "fexpr"}}
+          [] Mode = "vars"    -> {<<i, 0>> : i \in 1..Len(Variables)}
           [] Mode = "bigcalls" -> {<<sh, 0>> : sh \in {"ring", "ladder", "layers"}}
           [] Mode = "initerr" -> {<<0, 0>>}
           [] Mode = "director" -> {<<t, 0>> : t \in {"random", "fallback", "hash", "client", "chash"}}
@@ -235,10 +242,11 @@ Fam(key) ==
     [] Mode = "request" -> {c \in RequestCells : c.prog = key[1]}
     [] Mode = "jump"    -> {c \in JumpCells : c.callkind = key[1]}
     [] Mode = "bigcalls" -> {c \in BigCallCells : c.shape = key[1]}
+    [] Mode = "vars"    -> VarCells(key[1])
     [] Mode = "initerr" -> InitErrCells
     [] Mode = "director" -> {c \in DirectorCells : c.dtype = key[1]}
 Predict(c) == CASE c.k = "assign" -> PredictAssign(c) [] c.k = "builtin" -> "any" [] c.k = "calls" -> PredictCalls(c)
-                [] c.k = "include" -> PredictInclude(c) [] c.k = "request" -> "any" [] c.k = "jump" -> "any" [] c.k = "bigcalls" -> PredictBig(c) [] c.k = "director" -> "any"
+                [] c.k = "include" -> PredictInclude(c) [] c.k = "request" -> "any" [] c.k = "jump" -> "any" [] c.k = "bigcalls" -> PredictBig(c) [] c.k = "vars" -> "any" [] c.k = "director" -> "any"
                 [] c.k = "initerr" -> "error"
 
 Init == phase = "part" /\ item \in Keys
